@@ -150,13 +150,21 @@ func (r *apiReplay) run() {
 	}
 }
 
-func (r *apiReplay) checkSig(step int, pk pdkg.Packet, from int) {
+func (r *apiReplay) checkSig(step int, pk pdkg.Packet, from int, authOK ...bool) {
 	// what an application does before handing a bundle to the state machine; hand-made bundles carry the
 	// faulty party's own signature, so they must pass
 	for _, p := range r.w.order {
 		if g := r.gens[p]; g != nil {
 			_ = g
-			if err := pdkg.VerifyPacketSignature(r.w.config(p), pk); err != nil {
+			err := pdkg.VerifyPacketSignature(r.w.config(p), pk)
+			if len(authOK) > 0 && !authOK[0] {
+				// author index outside the group: an application that verifies packets drops it, the state machine ignores it
+				if err == nil {
+					r.driftf("unknown-author-signature-accepted", step, from, "rejected", "accepted")
+				}
+				return
+			}
+			if err != nil {
 				r.driftf("handmade-bundle-signature-rejected", step, from, "valid", err.Error())
 			}
 			return
@@ -185,8 +193,10 @@ func (r *apiReplay) stepDeal(i int, s Step) {
 			db = w.craftDeal(b)
 			cache[string(kb)] = db
 		}
-		r.checkSig(i, db, b.From)
-		w.dealPub[b.From] = append(w.dealPub[b.From], db.Public)
+		r.checkSig(i, db, b.From, b.authOK())
+		if b.authOK() {
+			w.dealPub[b.From] = append(w.dealPub[b.From], db.Public)
+		}
 		list = append(list, db)
 	}
 	for _, e := range s.Exp {
@@ -251,7 +261,7 @@ func (r *apiReplay) stepResp(i int, s Step) {
 			continue
 		}
 		rb := w.craftResp(b)
-		r.checkSig(i, rb, b.From)
+		r.checkSig(i, rb, b.From, b.authOK())
 		list = append(list, rb)
 	}
 	for _, e := range s.Exp {
@@ -305,7 +315,7 @@ func (r *apiReplay) stepJust(i int, s Step) {
 			continue
 		}
 		jb := w.craftJust(b, r.dealt)
-		r.checkSig(i, jb, b.From)
+		r.checkSig(i, jb, b.From, b.authOK())
 		list = append(list, jb)
 	}
 	for _, e := range s.Exp {
@@ -568,8 +578,7 @@ func RunAPI(cfg Config, res *core.Result) error {
 		return fmt.Errorf("no behaviours in %s", cfg.In)
 	}
 	if cfg.Max > 0 && len(lines) > cfg.Max {
-		// deterministic stratified sub-sample: group by (faulty set, abstract case label), then take
-		// behaviours round-robin over the groups in seeded-hash order, so every case label is replayed
+		// deterministic stratified sub-sample (seeded hash order inside the strata)
 		type hl struct {
 			h uint64
 			l []byte
@@ -577,15 +586,57 @@ func RunAPI(cfg Config, res *core.Result) error {
 		groups := map[string][]hl{}
 		allHonest, faultyLines := splitHonest(lines)
 		nGenerated := len(lines)
+		type item struct {
+			hl
+			singles [3]string
+		}
+		var items []item
 		for _, l := range faultyLines {
 			bh, err := parseBehaviour(l)
 			if err != nil {
 				return err
 			}
 			r := &apiReplay{bh: bh, w: &world{setup: bh[0]}}
-			k := fmt.Sprint(bh[0].Faulty, r.caseLabel())
-			groups[k] = append(groups[k], hl{core.Hash64(fmt.Sprint(cfg.Seed), string(l)), l})
+			cfgk := fmt.Sprint(bh[0].Shape, bh[0].OT, bh[0].NT, bh[0].Fast, len(bh[0].Parties), bh[0].Faulty)
+			k := cfgk + r.caseLabel()
+			x := hl{core.Hash64(fmt.Sprint(cfg.Seed), string(l)), l}
+			groups[k] = append(groups[k], x)
+			it := item{hl: x}
+			for _, st := range bh {
+				switch st.Act {
+				case "Deal":
+					it.singles[0] = cfgk + "|deal:" + dealLabel(st.Bundles)
+				case "Resp":
+					it.singles[1] = cfgk + "|resp:" + respLabel(st.Bundles, bh[0].Fast)
+				case "Just":
+					it.singles[2] = cfgk + "|just:" + justLabel(st.Bundles)
+				}
+			}
+			items = append(items, it)
 		}
+		// 1. every single-phase label of every (configuration, faulty set) is replayed at least `per` times ...
+		const per = 4
+		sort.Slice(items, func(a, b int) bool { return items[a].h < items[b].h })
+		cnt := map[string]int{}
+		taken := map[string]bool{}
+		lines = append([][]byte(nil), allHonest...)
+		for _, it := range items {
+			need := false
+			for _, sl := range it.singles {
+				if sl != "" && cnt[sl] < per {
+					need = true
+				}
+			}
+			if need {
+				for _, sl := range it.singles {
+					cnt[sl]++
+				}
+				lines = append(lines, it.l)
+				taken[string(it.l)] = true
+			}
+		}
+		res.AddExtra("label_cover", len(lines))
+		// 2. ... then the full abstract cases round-robin in seeded order up to Max
 		var keys []string
 		for k, g := range groups {
 			keys = append(keys, k)
@@ -596,12 +647,13 @@ func RunAPI(cfg Config, res *core.Result) error {
 		})
 		res.AddExtra("behaviours_generated", nGenerated)
 		res.AddExtra("case_groups", len(keys))
-		lines = append([][]byte(nil), allHonest...)
 		for round := 0; len(lines) < cfg.Max; round++ {
 			took := false
 			for _, k := range keys {
 				if round < len(groups[k]) && len(lines) < cfg.Max {
-					lines = append(lines, groups[k][round].l)
+					if !taken[string(groups[k][round].l)] {
+						lines = append(lines, groups[k][round].l)
+					}
 					took = true
 				}
 			}
